@@ -196,6 +196,70 @@ def from_groove_cases(chk, rng):
                             {'factory': 'from_groove', 'groove': name, 'kwargs': kw, 'args': {k: repr(x) for k, x in v.items()}})
 
 
+def from_groove_overfilled(chk, rng):
+    """requests wider than the usable width (over-filled), up to and just beyond the end of the contour lines, at closed and open gaps:
+    the factory either raises or returns a valid, simple cross-section of exactly the requested width"""
+    from pyroll.core import Profile
+    import grooves_catalogue as GC
+    for name, kw in GC.CATALOGUE:
+        if kw.get('pad_angle', 0) != 0 or name in ('EquivalentRibbedGroove', 'FlatGroove') or 'indent' in kw:
+            continue
+        g = GC.build(name, kw, 1e-3)
+        uw = g.usable_width
+        cw = 2 * g.contour_line.bounds[2]              # where the contour lines (roll faces included) end
+        for width in (1.02 * uw, 0.5 * (uw + cw), 0.999 * cw, cw, 1.0001 * cw, 1.005 * cw, 1.02 * cw):
+            for gap in (0, 0.0, 1e-9 * uw, 0.05 * uw):
+                chk.cov['evaluations'] += 1
+                v = dict(width=width, gap=gap)
+                try:
+                    p = Profile.from_groove(g, **v)
+                except Exception:      # noqa  (a rejection is an answer)
+                    continue
+                m = measure(p)
+                # (a request up to one per cent beyond the contour lines is admitted on purpose - property C08 states that tolerance - and delivers the contour width)
+                want = width if width <= cw else (cw if width <= 1.01 * cw else None)
+                if not m['valid'] or not p.cross_section.is_simple or want is None or abs(m['w'] - want) > 1e-9 * uw:
+                    return chk.fail('from_groove-overfilled', f"Profile.from_groove({name}, width={width:.9g} (usable width {uw:.9g}, contour lines end at {cw:.9g}), gap={gap!r}) "
+                                    f"neither raises nor delivers the request: {m['w']:.9g} wide, valid={m['valid']}, simple={p.cross_section.is_simple}",
+                                    {'factory': 'from_groove', 'groove': name, 'kwargs': kw, 'args': {k: repr(x) for k, x in v.items()}})
+
+
+def from_groove_splines(chk, rng):
+    """spline grooves whose deepest point is not on the centre line (W-shaped, lopsided): height and gap alternatives agree, the height is the requested one"""
+    from pyroll.core import Profile, SplineGroove
+    shapes = {
+        'flat-top': [(-30, 0), (-20, 0), (-12, 10), (12, 10), (20, 0), (30, 0)],
+        'W': [(-30, 0), (-22, 0), (-14, 12), (-10, 12), (0, 7), (10, 12), (14, 12), (22, 0), (30, 0)],
+        'lopsided': [(-30, 0), (-20, 0), (-12, 6), (4, 8), (12, 14), (16, 14), (20, 0), (30, 0)],
+    }
+    for nm, pts in shapes.items():
+        f = rng.choice([1e-3, 1.0])
+        pts = [(z * f, y * f) for z, y in pts]
+        uw = 40 * f
+        g = SplineGroove(pts, usable_width=uw, classifiers=['generic_elongation'])
+        dmax = max(y for _, y in pts)
+        for gap in (0.0, 2 * f):
+            a = Profile.from_groove(g, filling=1.0, gap=gap)
+            data = {'factory': 'from_groove', 'groove': f"SplineGroove {nm}", 'points': pts, 'gap': gap}
+            chk.cov['evaluations'] += 2
+            try:
+                b = Profile.from_groove(g, filling=1.0, height=gap + 2 * dmax)
+            except Exception as e:
+                return chk.fail('from_groove-valid-rejected', f"Profile.from_groove(SplineGroove {nm}, height={gap + 2 * dmax}) raised {type(e).__name__}: {e}", data)
+            ma, mb = measure(a), measure(b)
+            if abs(mb['h'] - (gap + 2 * dmax)) > 1e-9 * uw or abs(ma['h'] - (gap + 2 * dmax)) > 1e-9 * uw or not a.cross_section.equals_exact(b.cross_section, 1e-12 * uw):
+                return chk.fail('from_groove-dimensions', f"Profile.from_groove(SplineGroove {nm} {pts}): requested height {gap + 2 * dmax}, got {mb['h']} "
+                                f"(by gap: {ma['h']})", data)
+        for h in (1.2 * dmax, 1.9 * dmax, 1.999 * dmax):
+            chk.cov['evaluations'] += 1
+            try:
+                p = Profile.from_groove(g, filling=0.9, height=h)
+            except Exception:      # noqa
+                continue
+            return chk.fail('from_groove-accepted-invalid', f"Profile.from_groove(SplineGroove {nm} {pts}, height={h}) did not raise although the grooves alone are "
+                            f"{2 * dmax} high (result {measure(p)['h']} high)", {'factory': 'from_groove', 'groove': f"SplineGroove {nm}", 'points': pts, 'height': h})
+
+
 def kernel_law_k4(chk, rng, n):
     """bounds(buffer(P, r)) = bounds(P) +- r up to the arc discretisation, for convex cores like the factories'"""
     from shapely.geometry import Polygon
@@ -256,6 +320,10 @@ def run(chk):
     valid_cases(chk, rng, 200 if not chk.thorough else 3000)
     invalid_cases(chk)
     from_groove_cases(chk, rng)
+    if not chk.failures:
+        from_groove_splines(chk, rng)
+    if not chk.failures:
+        from_groove_overfilled(chk, rng)
     kernel_law_k4(chk, rng, 100 if not chk.thorough else 2000)
     chk.cov['distinct_nontrivial'] += chk.cov['evaluations']
     chk.sample({'factory': 'hexagon', 'args': {'side': 1.0, 'corner_radius': 0.2}})
